@@ -2,4 +2,5 @@ import ChiaModel.Props.C01
 import ChiaModel.Props.C02
 import ChiaModel.Props.C03
 import ChiaModel.Props.C04
+import ChiaModel.Props.C05
 import ChiaModel.Props.C11
